@@ -169,6 +169,8 @@ def check_views(kv, L, f, what):
             f.append('%s: start/end %s/%s, enumeration %d/%d' % (what, kv['start'], kv['end'], L[0], L[-1]))
         if 'min' in kv and (int(kv['min']) != min(L) or int(kv['max']) != max(L)):
             f.append('%s: min/max %s/%s' % (what, kv['min'], kv['max']))
+    if 'value' not in kv:
+        return             # coordinates at the edge of the int range: the driver's probe loops are skipped
     vals = kv['value'].split(',')
     for j, v in enumerate(vals):
         i = j - 2
@@ -234,6 +236,22 @@ def c13_cases(rng, tier):
             e = s + rng.randint(-25, 25)
             h.append((s, e, rng.randint(-6, 6)))
         hist.append(h)
+    # histories at the edge of the int range: a loop that steps past its end wraps around (D20)
+    MAXI, MINI = 2 ** 63 - 1, -(2 ** 63)
+    for _ in range(150 if tier == 'quick' else 4000):
+        h = []
+        top = rng.random() < 0.5
+        for _ in range(rng.randint(1, 5)):
+            if top:
+                s_ = MAXI - rng.randint(0, 40)
+                e_ = MAXI - rng.choice([0, 0, rng.randint(0, 40)])
+            else:
+                s_ = MINI + rng.randint(0, 40)
+                e_ = MINI + rng.choice([0, 0, rng.randint(0, 40)])
+            if rng.random() < 0.3:
+                s_, e_ = e_, s_
+            h.append((s_, e_, rng.choice([1, -1, 2, -2, 3, 7, -5, 41])))
+        hist.append(h)
     for h in hist:
         out.append(case('rs', ['%d,%d,%d' % t for t in h], 'AppendUnique' + ''.join('(%d,%d,%d)' % t for t in h),
                         'history-%d' % min(len(h), 4), dict(h=h)))
@@ -246,6 +264,8 @@ def c13_oracle(c, impl):
     f = []
     if st != 'OK':
         return ['status ' + st]
+    if 'M_bycount' in kv and kv['M_bycount'] != kv['frames']:
+        f.append('Len() calls of Next() gave %s, the container holds %s' % (kv['M_bycount'][:80], kv['frames'][:80]))
     if c['op'] == 'ir':
         L = enum_range(m['s'], m['e'], m['st'])
         if L is None:
@@ -304,6 +324,14 @@ def range_cases(rng, tier, nvalid, nbad, sweep):
     if sweep:
         for s in gens.token_sweep(sweep):
             out.append(case('fs', [s], s, 'sweep', dict(s=s, valid=True)))
+    # components that end on the largest / smallest int (a loop stepping past them wraps: D20),
+    # and staggered / filled components whose ends coincide
+    M = 2 ** 63 - 1
+    for s in ['1,%d' % M, '%d,%d-%d' % (M, M - 4, M - 3), '%d-%d,%d' % (M - 4, M - 3, M), '%d-%d,%d-%d' % (M - 9, M - 3, M - 5, M),
+              '%d-%dx3,%d-%dx2' % (M - 9, M, M - 8, M), '5,%d' % (-M - 1), '%d-%d,%d-%d' % (-M + 5, -M, -M + 8, -M - 1),
+              '%d-%dx-3,%d' % (-M + 7, -M - 1, -M), '%d-%d' % (M, M - 6), '%d-%d' % (-M - 1, -M + 6),
+              '5-5:3', '1-3,7-7:2,10', '-4--4:1', '9-9y2', '1-1x5,1-1:5,1-1y5', '3,3-3:7', '0-0:1']:
+        out.append(case('fs', [s], s, 'edge', dict(s=s, valid=True)))
     return out
 
 
@@ -332,10 +360,42 @@ def c01_oracle(c, impl):
     return f
 
 
+def c02_edge_cases(rng, n):
+    """single components whose step is huge (its product with an index wraps around 2^64), asked at
+    explicit indices and values through the fsbig op"""
+    out = []
+    for _ in range(n):
+        k = rng.choice([1 << 62, 1 << 63, 1 << 61, 1 << 60, 3 << 60, 1 << 32, (1 << 62) + 2, rng.randint(1 << 40, 1 << 62)])
+        down = rng.random() < 0.5
+        d = -k if down else k
+        a = rng.choice([0, 0, 5, -7, rng.randint(-1000, 1000)])
+        cnt = rng.choice([1, 1, 2, 2, 3, 4])
+        while cnt > 1 and not (-(1 << 63) <= a + d * (cnt - 1) < (1 << 63) and abs(d * (cnt - 1)) < (1 << 63)):
+            cnt -= 1
+        last = a + d * (cnt - 1)
+        slack = rng.choice([0, 0, 1, 3]) if cnt > 1 or rng.random() < 0.5 else 0
+        b = last + (slack if not down else -slack)
+        if cnt == 1 and b == a:
+            b = a + (3 if not down else -3)
+            if k <= 3:
+                continue
+        if not (-(1 << 63) <= b < (1 << 63)) or not (-(1 << 63) <= d < (1 << 63)) or abs(b - a) >= (1 << 63):
+            continue
+        r = '%d-%dx%d' % (a, b, d if rng.random() < 0.7 else abs(d)) if abs(d) < (1 << 63) or d < 0 else None
+        if r is None or (abs(d) == (1 << 63) and 'x-' not in r):
+            continue
+        idxs = list(range(-2, cnt + 6)) + [1 << 32, (1 << 62) + 1, (1 << 63) - 1, -(1 << 63), 1 << 61]
+        vals = [a + d * i for i in range(-1, cnt + 2)] + [a + 1, last - 1, b, 0, 5]
+        vals = [v for v in vals if -(1 << 63) <= v < (1 << 63)]
+        out.append(case('fsbig', [r, ','.join(map(str, idxs)), ','.join(map(str, vals))], r, 'edge:huge-step',
+                        dict(kind='edge', a=a, d=d, n=cnt, idxs=idxs, vals=vals, r=r)))
+    return out
+
+
 def c02_cases(rng, tier):
     if tier == 'quick':
-        return range_cases(rng, tier, 2500, 0, 1)
-    return range_cases(rng, tier, 100000, 0, 2)
+        return range_cases(rng, tier, 2500, 0, 1) + c02_edge_cases(rng, 200)
+    return range_cases(rng, tier, 100000, 0, 2) + c02_edge_cases(rng, 5000)
 
 
 def c02_oracle(c, impl):
@@ -343,6 +403,21 @@ def c02_oracle(c, impl):
     if st != 'OK':
         return []          # C02 quantifies over accepted strings
     f = []
+    m = c['meta']
+    if m.get('kind') == 'edge':
+        a, d, n = m['a'], m['d'], m['n']
+        if int(kv['len']) != n or int(kv['start']) != a or int(kv['end']) != a + d * (n - 1):
+            f.append('len/start/end %s/%s/%s, the component denotes %d frames from %d to %d' % (kv['len'], kv['start'], kv['end'], n, a, a + d * (n - 1)))
+        for i, v in zip(m['idxs'], kv['value'].split(',')):
+            exp = str(a + d * i) if 0 <= i < n else 'E'
+            if v != exp:
+                f.append('frame at index %d = %s, expected %s' % (i, v, exp))
+        for v, ix, h in zip(m['vals'], zl(kv['index']), kv['has']):
+            mem = (v - a) % d == 0 and 0 <= (v - a) // d < n
+            exp = (v - a) // d if mem else -1
+            if ix != exp or (h == '1') != mem:
+                f.append('index-of / membership of %d = %d/%s, expected %d/%s' % (v, ix, h, exp, mem))
+        return f
     L = zl(kv['frames'])
     if len(set(L)) != len(L):
         f.append('enumerated frames contain a duplicate: %s' % kv['frames'][:100])
@@ -371,6 +446,17 @@ def c08_cases(rng, tier):
     for _ in range(800 if tier == 'quick' else 60000):
         s, sh = gens.range_string(rng, deco=False)
         out.append(case('norm', [s], s, 'grammar', dict(s=s, group=None)))
+    # small sets sitting at the largest / smallest int: bounds like max+1 wrap around there
+    for _ in range(60 if tier == 'quick' else 3000):
+        base = rng.choice([2 ** 63 - 1, 2 ** 63 - 1, 2 ** 63 - 1 - rng.randint(1, 5)]) - 12 if rng.random() < 0.6 else -(2 ** 63)
+        members = sorted(set(rng.randint(0, 12) for _ in range(rng.randint(1, 7))))
+        if rng.random() < 0.6:
+            members = sorted(set(members + [12 if base > 0 else 0]))
+        vals = [base + i for i in members]
+        if rng.random() < 0.4:
+            rng.shuffle(vals)
+        s = ','.join(map(str, vals))
+        out.append(case('norm', [s], s, 'int-edge', dict(s=s, group=None)))
     return out
 
 
@@ -424,6 +510,7 @@ def c09_cases(rng, tier):
         for _ in range(4000):
             l = gens.runs_list(rng) if rng.random() < 0.7 else gens.distinct_ints(rng, rng.randint(0, 9))
             add(l, rng.random() < 0.4, rng.choice([0, 0, 1, 2, 3, 4, 6]), 'runs' if len(l) > 2 else 'short')
+        c09_big_stride_cases(rng, 150, add)
         univ = list(range(-2, 5))
         for k in range(0, 5):
             for sub in itertools.combinations(univ, k):
@@ -438,10 +525,28 @@ def c09_cases(rng, tier):
                     if k <= 4:
                         for z in (2, 3):
                             add(list(perm), True, z, 'perm-z')
+        c09_big_stride_cases(rng, 5000, add)
         for _ in range(150000):
             l = gens.runs_list(rng) if rng.random() < 0.7 else gens.distinct_ints(rng, rng.randint(0, 12))
             add(l, rng.random() < 0.4, rng.choice([0, 1, 2, 3, 4, 5, 6]), 'runs')
     return out
+
+
+def c09_big_stride_cases(rng, n, add):
+    """runs whose stride exceeds 2^31 (offset x stride no longer fits an int), with extra frames on and
+    off the run's lattice beyond its end"""
+    for _ in range(n):
+        stride = rng.choice([4000000000, 1 << 32, 1 << 32, (1 << 32) + 1, (1 << 33) - 1, 3000000007, 1 << 40, rng.randint(1 << 31, 1 << 34)])
+        a = rng.choice([0, 0, 5, -3, rng.randint(-10 ** 6, 10 ** 6)])
+        k = rng.randint(3, 5)
+        l = [a + i * stride for i in range(k)]
+        extra = [a + (k + rng.randint(0, 2)) * stride, a + rng.randint(1, 9), a - stride, a + (k + 1) * stride + 1]
+        for x in rng.sample(extra, rng.randint(0, 3)):
+            if x not in l:
+                l.insert(rng.randrange(len(l) + 1) if rng.random() < 0.4 else len(l), x)
+        if rng.random() < 0.3:
+            l.reverse()
+        add(l, rng.random() < 0.3, rng.choice([0, 0, 2]), 'big-stride')
 
 
 def c09_oracle(c, impl):
@@ -488,7 +593,7 @@ def c11_cases(rng, tier):
             parts = [gens.comp(rng)[0] for _ in range(rng.randint(1, 3))]
             parts.insert(rng.randrange(len(parts) + 1), rng.choice(['a', '', ' 2', '1-', 'x', '1-5#', '3 ', '--1', '1-2-3', '\xe9']))
             s, sh = ','.join(parts), 'partial'
-        w = rng.choice([-1, 0, 1, 2, 3, 4, 5, 8])
+        w = rng.choice([-1, 0, 1, 2, 3, 4, 5, 8, 8, rng.choice([9, 10, 11, 12, 13, 17, 24, 40])])
         out.append(case('padfr', [s, w], '%r width=%d' % (s, w), sh, dict(s=s, w=w), nontrivial=w >= 2))
     return out
 
@@ -755,6 +860,8 @@ def c04_oracle(c, impl):
     exp = expected_paths(m['d'], m['b'], m['e'], m['frames'], w)
     if ps[0] != '' or ps[-1] != '':
         f.append('an index outside [0,len) gave %r / %r' % (ps[0], ps[-1]))
+    if '1' in kv.get('M_far', ''):
+        f.append('an index far outside [0,len) gave a path (probe pattern %s)' % kv['M_far'])
     if ps[1:-1] != exp:
         bad = [i for i, (x, y) in enumerate(zip(ps[1:-1], exp)) if x != y]
         f.append('path at index %s is %r, expected %r' % (bad[:1], ps[1:-1][bad[0]] if bad else ps[1:3], exp[bad[0]] if bad else exp[:2]))
@@ -806,7 +913,7 @@ def c12_cases(rng, tier):
             elif k == 7:
                 ops.append('F' + gen_range_comps(rng)[0])
             else:
-                ops.append(rng.choice(['N', 'R' + gens.range_string(rng)[0]]))
+                ops.append(rng.choice(['N', 'N', 'R' + gens.range_string(rng)[0]]))
         out.append(case('seqops', [s, st] + ops, '%r style=%d ops=%r' % (s, st, ops), 'history-%d' % min(len(ops), 5),
                         dict(d=d, b=b, r=r, p=p, e=e, st=st, s=s, ops=ops), nontrivial=len(ops) > 0))
     return out
@@ -872,6 +979,8 @@ def c12_oracle(c, impl_line):
         return ['status ' + impl_line[:20]]
     main, copy, parts = split_sections(impl_line)
     f = []
+    if ' M_alias=1' in impl_line:
+        f.append('changing the copy or a split part changed the original sequence (they share state)')
     # replay the history on the components, in the property's words
     d, b, e, p, st = m['d'], m['b'], m['e'], m['p'], m['st']
     w = py_pad_size(st, p)
@@ -1479,7 +1588,9 @@ def c15_cases(rng, tier):
     out = []
     n = 6000 if tier == 'quick' else 200000
     seeds = ['/a/b/foo.1-10x2#.exr', 'foo.0001.exr', '/x/y.1-5,7,9-20:3@@.tar.gz', 'a.%04d.b', 'c.$F3.d', 'u.<UDIM>.tif',
-             '.ext', 'noext', '/', '', 'a/b/', '1-5', '#', 'x.{{dir}}.1#.e', 'foo.-5--1@.e', 'v2_001.exr', '1-10y3', '10-1:2']
+             '.ext', 'noext', '/', '', 'a/b/', '1-5', '#', 'x.{{dir}}.1#.e', 'foo.-5--1@.e', 'v2_001.exr', '1-10y3', '10-1:2',
+             # pad widths far beyond any number's length (fills built from fixed-size tables run out)
+             'w.1-5######.exr', 'w.1-3%024d.e', 'w.-3-5$F30.e', 'w.7-9' + '@' * 26 + '.e', 'w.-12' + '#' * 9 + '.e']
     for i in range(n):
         s = rng.choice(seeds)
         for _ in range(rng.randint(0, 4)):
